@@ -42,7 +42,7 @@ P = {
             "Every text-bearing field x lengths 0..2N around its width x ASCII/single-byte/double-byte/marker-inserting text: exact width, NUL padding, multiple-of-4 for variable fields, terminating NUL for MST/MSX/MSL/MTC, decode stops at first NUL.",
             "Field positions/widths from ref/insim_v9.spec.", "4/C11"),
     "C12": ("exploration", "exhaustive small-alphabet and token-level + random runtime check with reference tokeniser/stripper",
-            "All strings up to length 6 (quick 4) over 20 class representatives, all strings of up to 6 (quick 5) multi-character tokens, plus random Unicode strings: unescape(escape(s)) == s, escaped output wire-safe, escape->codepage encode->decode->unescape chain, strip == 10-line reference and idempotent.",
+            "All strings up to length 6 (quick 4) over 20 class representatives, all strings of up to 6 (quick 5) multi-character tokens, every BMP character whose encoded form ends in byte 0x5E before every marker letter and digit, plus random Unicode strings: unescape(escape(s)) == s, escaped output wire-safe, escape->codepage encode->decode->unescape chain, strip == 10-line reference and idempotent.",
             "Class-representative alphabet; longer strings sampled.", "4/C12"),
     "C13": ("exploration", "exhaustive runtime enumeration (thorough: all 2^32 values) against an independent classifier",
             "Thorough enumerates every 4-byte value on 16 threads in both profiles; quick enumerates all 2^24 NUL-terminated values (every built-in shape) plus 2e7 others.",
